@@ -193,7 +193,10 @@ func (r *Run) ViolationN(attrs map[string]string, size int, detail any, n int64)
 	if f := os.Getenv("VERIF_DUMP_VIOLATIONS"); f != "" && k < 0 {
 		// debugging aid: every unlisted failing case, one JSON line each
 		if fh, err := os.OpenFile(f, os.O_APPEND|os.O_CREATE|os.O_WRONLY, 0o644); err == nil {
-			b, _ := json.Marshal(attrs)
+			b, _ := json.Marshal(map[string]any{"attrs": attrs, "detail": detail})
+			if len(b) > 1500 {
+				b = append(b[:1500], []byte("...")...)
+			}
 			fh.Write(append(b, '\n'))
 			fh.Close()
 		}
